@@ -390,13 +390,13 @@ theorem claimTail_iso (h : IsoRel b ρ s₁ s₂) {i : Nat} (hi : i ∈ s₁.db.
     exact claimCont_iso (h.modDb _ _ (h.db.insNpSide ⟨i, true, side, t⟩ hi)) hi (by simpa using hm) e₁ e₂
   | some r =>
     rw [hf] at e₁ e₂
-    simp only [Option.map, Chan.rnSide_claimed] at e₁ e₂
+    dsimp only [Option.map] at e₁ e₂
     split at e₁
     · rename_i hc
-      rw [if_pos hc] at e₂
+      rw [if_pos (show (Chan.rnSide ρ r).claimed = true from hc)] at e₂
       exact claimCont_iso h hi hm e₁ e₂
     · rename_i hc
-      rw [if_neg hc] at e₂
+      rw [if_neg (show ¬ (Chan.rnSide ρ r).claimed = true from hc)] at e₂
       cases e₁; cases e₂; exact ⟨h, rfl⟩
 
 /-- `claim_nameplate`.  `hg` is the guard of K-global-mailbox-id for the generated id (implied
@@ -480,7 +480,6 @@ theorem releaseNameplate_iso (h : IsoRel b ρ s₁ s₂) {name side : String} {t
             (((s₁.modDb (·.unclaim np.id side)).commit).db.npSidesOf np.id).map (·.added) := by
           rw [List.map_map]; rfl
         obtain ⟨h3, hb⟩ := h2.uNp hadd t false
-        dsimp only at e₁ e₂
         cases ea : (((s₁.modDb (·.unclaim np.id side)).commit).modDb
             (fun d => (d.delNpSidesOf np.id).delNameplate np.id)).uNp b
             (((s₁.modDb (·.unclaim np.id side)).commit).db.npSidesOf np.id) t false with
